@@ -54,6 +54,24 @@ theorem outside_range_irrelevant (o : Opts) (key₁ key₂ : Option W.Bytes) (kv
   rw [a1, a2, b1, b2, e, hmax, a0, b0]
   exact ⟨rfl, rfl, rfl⟩
 
+/-- option validation (`BlockHeightRange::new`): a range whose `--start` is not below its `--end` is rejected — exit 1, nothing
+    delivered, no file — and every accepted range (`--end` absent, or start < end) goes to the run the other theorems are about -/
+theorem range_validation (o : Opts) (key : Option W.Bytes) (kvs : List (W.Bytes × W.Bytes)) (files : List BlkFile) :
+    (∀ e, o.stop = some e → o.start ≥ e →
+      (Run.main o key kvs files).exit = 1 ∧ (Run.main o key kvs files).delivered = [] ∧ (Run.main o key kvs files).files = []) ∧
+    ((∀ e, o.stop = some e → o.start < e) → Run.main o key kvs files = run o key kvs files) := by
+  constructor
+  · intro e he hge
+    have : rejected o = true := by simp [rejected, he, hge]
+    simp [Run.main, this]
+  · intro h
+    have : rejected o = false := by
+      unfold rejected
+      cases hs : o.stop with
+      | none => rfl
+      | some e => have := h e hs; simp; omega
+    simp [Run.main, this]
+
 /-- the upper end is `min(--end, tip)`, and the tip itself when no `--end` is given (both inclusive) -/
 theorem upper_end (o : Opts) (kvs : List (W.Bytes × W.Bytes)) (ld : Loaded) (h : loadIndex o kvs = .ok ld) :
     ld.maxH = (match o.stop with
